@@ -52,8 +52,16 @@ def corrupt_conv(r):
 
 def trace_phase(ctx, recs):
     trace = strip(recs)
-    ctx.trace_check("Trace_HistOps", "Trace_HistOps.cfg", trace,
-                    lambda r: "%s:%s" % (r["k"], r.get("op", "scale")), sample_at=len(trace) // 2)
+    # a rejected record is reported and validation goes on behind it (bounded number of rounds)
+    rest = trace
+    for _ in range(6):
+        before = len(ctx.violations)
+        acc = ctx.trace_check("Trace_HistOps", "Trace_HistOps.cfg", rest,
+                              lambda r: "%s:%s" % (r["k"], r.get("op", "scale")), sample_at=len(rest) // 2)
+        if acc >= len(rest):
+            break
+        rest = rest[acc + 1:]
+    trace = [r for r in trace]
     for kind, fn in (("hist", corrupt_hist), ("graph", corrupt_graph), ("conv", corrupt_conv)):
         sub = [r for r in trace if r["k"] == kind]
         if sub:
